@@ -31,6 +31,43 @@ fn eval_all(vm: &mut Vm, mut text: &str) -> String {
     }
 }
 
+/// `#slices <budget> <max_calls>: <forms>`: every form is prepared and then resumed with a constant budget
+fn eval_sliced(vm: &mut Vm, budget: usize, max_calls: usize, mut text: &str) -> String {
+    let mut last = String::from("OK");
+    loop {
+        let t = text.trim_start();
+        if t.is_empty() {
+            return last;
+        }
+        let (cell, rest) = match marwood::parse::parse_text(t) {
+            Ok(x) => x,
+            Err(e) => return format!("ERR {}", e),
+        };
+        if let Err(e) = vm.prepare_eval(&cell) {
+            return format!("ERR {}", e);
+        }
+        let mut calls = 0;
+        loop {
+            calls += 1;
+            if calls > max_calls {
+                return format!("NOT-COMPLETED after {} resumptions with budget {}", max_calls, budget);
+            }
+            match vm.run_count(budget) {
+                Ok(Some(cell)) => {
+                    last = format!("OK {:#}", cell);
+                    break;
+                }
+                Ok(None) => continue,
+                Err(e) => return format!("ERR {}", e),
+            }
+        }
+        match rest {
+            Some(r) => text = r,
+            None => return last,
+        }
+    }
+}
+
 fn main() {
     panic::set_hook(Box::new(|_| {}));
     let stdin = std::io::stdin();
@@ -46,7 +83,15 @@ fn main() {
         let r = panic::catch_unwind(panic::AssertUnwindSafe(|| {
             let mut out = String::new();
             for form in line.split(";;") {
-                out = eval_all(&mut vm, form);
+                if let Some(rest) = form.trim_start().strip_prefix("#slices ") {
+                    let (hdr, body) = rest.split_once(':').unwrap_or(("1 1000", rest));
+                    let mut it = hdr.split_whitespace();
+                    let budget: usize = it.next().and_then(|x| x.parse().ok()).unwrap_or(1);
+                    let max_calls: usize = it.next().and_then(|x| x.parse().ok()).unwrap_or(1000);
+                    out = eval_sliced(&mut vm, budget, max_calls, body);
+                } else {
+                    out = eval_all(&mut vm, form);
+                }
             }
             out
         }));
